@@ -316,6 +316,48 @@ func misuse(db *originium.DB, name string, fail func(string, string, ...any)) bo
 			return false
 		}
 		tx.Discard()
+	case "use-after-successful-commit":
+		// a transaction that committed successfully is finished as well: nothing written through the stale
+		// handle may ever become visible (the model is not updated for these calls)
+		tx := db.Begin(true)
+		if err := tx.Delete(seqNeverKey); err != nil {
+			fail("misuse/setup", "Delete returned %v", err)
+			return false
+		}
+		if err := tx.Commit(); err != nil {
+			fail("unexpected-commit-error", "%v", err)
+			return false
+		}
+		if err := tx.Set("k!", []byte("ghost")); err != originium.ErrDiscardedTxn {
+			fail("misuse/set-after-commit", "Set on a committed transaction returned %v", err)
+			return false
+		}
+		if err := tx.Delete("k"); err != originium.ErrDiscardedTxn {
+			fail("misuse/delete-after-commit", "Delete on a committed transaction returned %v", err)
+			return false
+		}
+		if err := tx.Commit(); err != originium.ErrDiscardedTxn {
+			fail("misuse/commit-after-commit", "second Commit on a committed transaction returned %v", err)
+			return false
+		}
+		if v, ok := tx.Get("k"); ok {
+			fail("misuse/get-after-commit", "Get on a committed transaction returned %q", v)
+			return false
+		}
+		// a handle leaked out of an Update closure that returned nil
+		var leaked *originium.Txn
+		if err := db.Update(func(t *originium.Txn) error { leaked = t; return t.Delete(seqNeverKey) }); err != nil {
+			fail("unexpected-commit-error", "%v", err)
+			return false
+		}
+		if err := leaked.Set("k@1", []byte("ghost2")); err != originium.ErrDiscardedTxn {
+			fail("misuse/set-after-update", "Set through a handle leaked from a finished Update returned %v", err)
+			return false
+		}
+		if err := leaked.Commit(); err != originium.ErrDiscardedTxn {
+			fail("misuse/commit-after-update", "Commit through a handle leaked from a finished Update returned %v", err)
+			return false
+		}
 	case "empty-key":
 		tx := db.Begin(true)
 		if err := tx.Set("", []byte("bad")); err != originium.ErrEmptyKey {
